@@ -220,7 +220,7 @@ def run_verify(fs, top='Manifest', path='', last_mtime=None, fail_handler=None,
     RealWorld).  Returns a short outcome string."""
     from gemato.exceptions import (ManifestMismatch, ManifestIncompatibleEntry,
                                    ManifestSyntaxError, ManifestCrossDevice,
-                                   ManifestSymlinkLoop)
+                                   ManifestSymlinkLoop, GematoException)
     from gemato.recursiveloader import ManifestRecursiveLoader
     from vf.modelfs import FuelExhausted
     kw = {}
@@ -251,6 +251,11 @@ def run_verify(fs, top='Manifest', path='', last_mtime=None, fail_handler=None,
             return 'nonterminating'
         except OSError as e:
             return 'oserror:%s' % e.errno
+        except GematoException as e:
+            return 'error:' + type(e).__name__
+        except (AssertionError, AttributeError, KeyError, IndexError, TypeError,
+                ValueError, NotImplementedError, UnboundLocalError, OverflowError) as e:
+            return 'crash:' + type(e).__name__
 
 
 def expected_outcomes(v):
